@@ -49,11 +49,73 @@ def paramRaw (p : Param) : Bool :=
 
 end Martian.FormatDecl
 
+namespace Martian.FormatRes
+open Martian.Lexer (Bytes unquoteBytes)
+open Martian.FormatExp
+
+/-! ## the readers of the trailing clauses with the reader of `mem_gb` / `vmem_gb` a parameter
+
+`pResListR readGBTok` is `pResList` (the exact reading the round-trip theorems of section
+StageClauses are about); `pResListR readGB32Tok` is what the REAL parser does (the literal is
+rounded to the nearest float32 before `roundUpTo(·, 1024)`). -/
+
+/-- `pResList` with `rd` for `float_32` + `roundUpTo(·, 1024)` -/
+def pResListR (rd : Tok → Option Int) : List Tok → Res → Option (Res × List Tok)
+  | .punct 0x29 :: r, acc => some (acc, r)
+  | .id k :: .punct 0x3D :: v :: .punct 0x2C :: r, acc =>
+    if k = sThreads then
+      match readF32 v with
+      | some t => pResListR rd r { acc with threads := some t }
+      | none => none
+    else if k = sMemGb ∨ k = sMemgb then
+      match rd v with
+      | some mb => pResListR rd r { acc with mem := some mb }
+      | none => none
+    else if k = sVmemGb ∨ k = sVmemgb then
+      match rd v with
+      | some mb => pResListR rd r { acc with vmem := some mb }
+      | none => none
+    else if k = sSpecial then
+      match v with
+      | .str raw =>
+        match unquoteBytes raw with
+        | some s => pResListR rd r { acc with special := some s }
+        | none => none
+      | _ => none
+    else if k = sVolatile then
+      match v with
+      | .id w => if w = sStrict then pResListR rd r { acc with volatile := some true } else none
+      | .kFalse => pResListR rd r { acc with volatile := some false }
+      | _ => none
+    else none
+  | _, _ => none
+
+def pResourcesR (rd : Tok → Option Int) : List Tok → Option (Option Res × List Tok)
+  | .id w :: ts =>
+    if w = sUsing then
+      match ts with
+      | .punct 0x28 :: r => (pResListR rd r {}).map fun x => (some x.1, x.2)
+      | _ => none
+    else some (none, .id w :: ts)
+  | ts => some (none, ts)
+
+def pTailR (rd : Tok → Option Int) : List Tok → Option ((Option Res × Option (List Bytes)) × List Tok)
+  | .punct 0x29 :: ts =>
+    match pResourcesR rd ts with
+    | some (res, ts1) =>
+      match pRetain ts1 with
+      | some (ret, ts2) => some ((res, ret), ts2)
+      | none => none
+    | none => none
+  | _ => none
+
+end Martian.FormatRes
+
 namespace Martian.FormatStage
 open Martian.Lexer (Bytes numTok parseInt parseFloat)
 open Martian.FormatExp
-open Martian.FormatDecl (Param paramsStrsValid)
-open Martian.FormatRes (Res wfThreads wfMB joinSp)
+open Martian.FormatDecl (Param paramsStrsValid pInParams pOutParams)
+open Martian.FormatRes (Res wfThreads wfMB joinSp pSrc sStage)
 
 /-- the token texts `float_32` accepts for `threads`: one NUM_INT token of `int64` size or one
 NUM_FLOAT token in the float32 range (what `readF32` returns on a token of the tokenizer) -/
@@ -126,5 +188,52 @@ def hSample (t : Bytes) : Bytes :=
   else if t = [0x31, 0x65, 0x30] then [0x31]
   else if t = [0x30, 0x30, 0x37] then [0x37]
   else if wfThreads t then t else [0x31]
+
+/-! ## the stage reader with the reader of `mem_gb` / `vmem_gb` a parameter -/
+
+def pStageBodyR (rd : Tok → Option Int) (f : Nat) (name : Bytes) (ts : List Tok) : Option (Stage × List Tok) :=
+  match pInParams f ts with
+  | some (ins, r1) =>
+    match pOutParams f r1 with
+    | some (outs, r2) =>
+      match pSrc r2 with
+      | some ((lang, path, args), r3) =>
+        match pSplit f r3 with
+        | some ((sp, ci, co), r4) =>
+          match Martian.FormatRes.pTailR rd r4 with
+          | some ((res, ret), rest) =>
+            some (⟨name, ins, outs, lang, path, args, sp, ci, co, res, ret⟩, rest)
+          | none => none
+        | none => none
+      | none => none
+    | none => none
+  | none => none
+
+def pStageR (rd : Tok → Option Int) (ts : List Tok) : Option (Stage × List Tok) :=
+  match ts with
+  | .reserved w :: .id name :: .punct c :: r =>
+    if w = sStage ∧ c = 0x28 then pStageBodyR rd (ts.length + 1) name r else none
+  | _ => none
+
+def pStageAllR (rd : Tok → Option Int) (ts : List Tok) : Option Stage :=
+  match pStageR rd ts with
+  | some (s, []) => some s
+  | _ => none
+
+/-- a file that is one `stage` declaration, read as the REAL parser reads it: `mem_gb` / `vmem_gb`
+through the float32 rounding of the literal (`readGB32Tok`) -/
+def parseStage32 (src : Bytes) : Option Stage := (lexAll src).bind (pStageAllR Martian.FormatRes.readGB32Tok)
+
+/-- … and with the threads value as Go holds it -/
+def parseStage32H (h : Bytes → Bytes) (src : Bytes) : Option Stage := (parseStage32 src).map (canonStage h)
+
+/-- `mem_gb` and `vmem_gb` are below 256 GB in magnitude: beyond, the float32 rounding of the
+printed literal can change the value (F29) -/
+def stageMB32Valid (s : Stage) : Bool :=
+  match s.res with
+  | some r =>
+    (match r.mem with | some mb => decide (mb.natAbs < 262144) | none => true) &&
+    (match r.vmem with | some mb => decide (mb.natAbs < 262144) | none => true)
+  | none => true
 
 end Martian.FormatStage
